@@ -1,0 +1,66 @@
+//go:build verif
+
+// Contracts for govc (see /verif/DESIGN.md). Comment-only file.
+
+package ranges
+
+//@ pragma strings ordered
+//@ property C39
+
+// A leaf holds inclusive ranges [from, to]. Between operations the ranges are disjoint and ordered
+// (rangesLeaf); inside Insert, after the new range went in and before coalescing, they are only sorted
+// by their lower ends (sortedFrom).
+//@ spec sortedFrom(leaf *leafNode) bool = forall i, j :: 0 <= i && i < j && j < leaf.size ==> leaf.slots[i].from <= leaf.slots[j].from
+//@ spec wfLeaf(leaf *leafNode) bool = 0 <= leaf.size && leaf.size <= 128 && sortedFrom(leaf)
+//@ spec rangesLeaf(leaf *leafNode) bool = wfLeaf(leaf) && (forall i :: 0 <= i && i < leaf.size ==> leaf.slots[i].from <= leaf.slots[i].to) && (forall i :: 0 <= i && i + 1 < leaf.size ==> leaf.slots[i].to < leaf.slots[i + 1].from)
+
+// searchBinary: first position whose lower end is >= val
+//@ func (leaf *leafNode) searchBinary(val) (r)
+//@   requires leaf != nil && wfLeaf(leaf)
+//@   ensures! 0 <= r && r <= leaf.size
+//@   ensures! below: forall k :: 0 <= k && k < r ==> leaf.slots[k].from < val
+//@   ensures! above: forall k :: r <= k && k < leaf.size ==> leaf.slots[k].from >= val
+//@   loop 0 invariant 0 <= i && i <= j && j <= leaf.size
+//@   loop 0 invariant forall k :: 0 <= k && k < i ==> leaf.slots[k].from < val
+//@   loop 0 invariant forall k :: j <= k && k < leaf.size ==> leaf.slots[k].from >= val
+//@   loop 0 decreases j - i
+
+//@ func (ls *leafSlot) contains(from, to) (r)
+//@   requires ls != nil
+//@   ensures! r <==> ls.from <= from && to <= ls.to
+//@ func overlap(ls1, ls2) (r)
+//@   requires ls1 != nil && ls2 != nil
+//@   ensures! r <==> ls1.to >= ls2.from && ls2.to >= ls1.from
+// merge: overlapping ranges become their union (kept in the first), others are left alone
+//@ func merge(ls1, ls2) (r)
+//@   requires ls1 != nil && ls2 != nil && ls1 != ls2
+//@   modifies ls1.from, ls1.to
+//@   ensures! r <==> old(ls1.to) >= ls2.from && ls2.to >= old(ls1.from)
+//@   ensures! union: r ==> ls1.from == (old(ls1.from) <= ls2.from ? old(ls1.from) : ls2.from) && ls1.to == (old(ls1.to) >= ls2.to ? old(ls1.to) : ls2.to)
+//@   ensures! untouched: !r ==> ls1.from == old(ls1.from) && ls1.to == old(ls1.to)
+
+// leaf.insert: -1 (existing) only when a neighbouring range already contains [from, to], -2 (overflow) only when
+// full; otherwise the range is inserted at the returned position, the others keep their order, and the leaf
+// stays sorted by lower ends
+//@ func (leaf *leafNode) insert(from, to) (r)
+//@   requires leaf != nil && wfLeaf(leaf)
+//@   modifies leaf.slots, leaf.size
+//@   ghost p int = i
+//@   ensures! range: r == -1 || r == -2 || (0 <= r && r < leaf.size)
+//@   ensures! existing: r == -1 ==> leaf.size == old(leaf.size) && 0 <= p && p <= leaf.size && ((p < leaf.size && leaf.slots[p].from <= from && to <= leaf.slots[p].to) || (p > 0 && leaf.slots[p - 1].from <= from && to <= leaf.slots[p - 1].to))
+//@   ensures! overflow: r == -2 ==> old(leaf.size) >= 128 && leaf.size == old(leaf.size)
+//@   ensures! unchanged: r < 0 ==> forall k :: 0 <= k && k < leaf.size ==> leaf.slots[k] == old(leaf.slots[k])
+//@   ensures! inserted: r >= 0 ==> leaf.size == old(leaf.size) + 1 && leaf.slots[r].from == from && leaf.slots[r].to == to
+//@   ensures! keeps: r >= 0 ==> forall k :: 0 <= k && k < old(leaf.size) ==> leaf.slots[k < r ? k : k + 1] == old(leaf.slots[k])
+//@   ensures! sorted: wfLeaf(leaf)
+
+// Contains on a set that is still a single leaf: no false negatives and no false positives - the answer is
+// yes exactly when some range of the leaf contains the value
+//@ func (rs *Ranges) search(val) (ti, leaf, li)
+//@   requires rs != nil && rs.tree == nil && wfLeaf(rs.leaf)
+//@   ensures! leaf == rs.leaf && 0 <= li && li <= leaf.size && (forall k :: 0 <= k && k < li ==> leaf.slots[k].from < val) && (forall k :: li <= k && k < leaf.size ==> leaf.slots[k].from >= val)
+//@ func (rs *Ranges) Contains(val) (r)
+//@   requires rs == nil || (rs.tree == nil && rangesLeaf(rs.leaf))
+//@   ensures! nil_set: rs == nil ==> !r
+//@   ensures! no_false_negative: rs != nil ==> forall k :: 0 <= k && k < rs.leaf.size && rs.leaf.slots[k].from <= val && val <= rs.leaf.slots[k].to ==> r
+//@   ensures! no_false_positive: rs != nil && (forall k :: 0 <= k && k < rs.leaf.size ==> !(rs.leaf.slots[k].from <= val && val <= rs.leaf.slots[k].to)) ==> !r
